@@ -7,7 +7,8 @@ upload queue, request pipeline, web-seed caps, rate limits, generated configurat
 together with their REQUIRED obligation tags.
 
   rm     LimitsRM.tla (counting object) + LimitsRMProto.tla (goroutines/channels as rendezvous steps),
-         MC_LimitsRM_*.cfg, Trace_LimitsRM        real internal/resourcemanager under concurrent callers
+         MC_LimitsRM_*.cfg, Trace_LimitsRM        real internal/resourcemanager under concurrent callers (modes disc / pre /
+         during / race = budget exhausted, the cancel channel of a queued request closes as another holder releases)
   cache  LimitsCache.tla (cache object) + LimitsCacheProto.tla (two locks, semaphore, TTL timers),
          MC_LimitsCache_*.cfg, Trace_LimitsCache  real internal/piececache: op sequences + gated concurrent readers
   addr   LimitsAddr.tla (counters) + LimitsAddrProto.tla (transcription of Push/Pop/Reset),
@@ -250,10 +251,30 @@ def rm_describe(t, pos, tag):
         return tag, sig, text
     if tag == "C17.rm.crash" and crash:
         sig = "sub=rm tag=%s where=%s msg=%s" % (tag, crash.get("where"), crash.get("msg"))
-        return tag, sig, "resource manager crashed the process: %s at %s" % (crash.get("msg"), crash.get("where"))
+        gvc = rm_cancelled_grants(t)
+        return tag, sig, "resource manager crashed the process: %s at %s%s" % (
+            crash.get("msg"), crash.get("where"),
+            (" (after %d notification(s) for requests whose cancel channel had been closed, mode %s)" % (len(gvc), mode)) if gvc else "")
     ev = t[pos] if pos < len(t) else {}
+    gvc = rm_cancelled_grants(t[:pos + 1])
     sig = "sub=rm tag=%s f=%s mode=%s limit=%s" % (tag, ev.get("f") or ev.get("op"), mode, t[0].get("limit"))
-    return tag, sig, "resource manager history violates %s near event %d: %s" % (tag, pos, json.dumps(ev)[:300])
+    text = "resource manager history violates %s near event %d: %s" % (tag, pos, json.dumps(ev)[:300])
+    if gvc:
+        sig += " after_grant_of_cancelled_request=yes"
+        text += (" - earlier in this history %d notification(s) were delivered for queued requests whose cancel channel had been "
+                 "closed (ids %s): such a grant must be charged like any other (C17.rm.grant_vs_cancel)" % (len(gvc), gvc[:5]))
+    return tag, sig, text
+
+
+def rm_cancelled_grants(t):
+    """ids of requests that were notified after their Cancel line (both cases of the manager's select were ready)."""
+    canc, out = set(), []
+    for e in t:
+        if e["op"] == "Cancel":
+            canc.add(e["id"])
+        elif e["op"] == "Notified" and e["id"] in canc:
+            out.append(e["id"])
+    return out
 
 
 def check_rm(ctx, drv):
@@ -262,6 +283,15 @@ def check_rm(ctx, drv):
     #    the protocol AS IT IS is fine under the strict calling discipline ...
     mc(ctx, "MC_LimitsRM", ctx.pick("MC_LimitsRM_fixedq.cfg", "MC_LimitsRM_fixed.cfg"), timeout=2400)
     mc(ctx, "MC_LimitsRM", "MC_LimitsRM_asis_disc.cfg", timeout=900)
+    # grant vs cancel (C17.rm.grant_vs_cancel): under the strict calling discipline TLC reaches the state in which the send on
+    # notifyC and the closed cancel channel of the drawn request are ready together, and the behaviour in which the send is
+    # taken (witnesses: the "invariants" are expected to be violated); all clean configurations check ToldIsHeld
+    for cfg, key in (("MC_LimitsRM_race.cfg", "rm_model_grant_vs_cancel_both_ready"), ("MC_LimitsRM_race2.cfg", "rm_model_cancelled_request_granted")):
+        ok, out = mc(ctx, "MC_LimitsRM", cfg, timeout=900, expect_ok=False)
+        if not os.environ.get("C17_SKIP_MC"):
+            if ok or not re.search(r"Invariant (NoGrantCancelRace|NoCancelledHolder) is violated", out):
+                raise vlib.MachineryError("MC_LimitsRM/%s: the grant-vs-cancel situation is not reachable in the model (vacuous)\n%s" % (cfg, out[-2000:]))
+            ctx.extra[key] = "reachable (explored by TLC)"
     if not ctx.quick():
         mc(ctx, "MC_LimitsRM", "MC_LimitsRM_fixed5.cfg", timeout=1500)
         mc(ctx, "MC_LimitsRM", "MC_LimitsRM_live.cfg", timeout=900)
@@ -272,13 +302,16 @@ def check_rm(ctx, drv):
     if not ctx.quick():
         ok, out = mc(ctx, "MC_LimitsRM", "MC_LimitsRM_wakeup.cfg", timeout=600, expect_ok=False)
         ctx.extra["rm_model_lost_wakeup"] = "not reachable" if ok else "reachable (design observation, not an obligation of C17)"
+        ok, out = mc(ctx, "MC_LimitsRM", "MC_LimitsRM_recheck.cfg", timeout=900, expect_ok=False)
+        ctx.extra["rm_model_mutant_recheck_after_notify"] = ("not detected (model)" if ok else "violates " + ",".join(sorted(set(
+            re.findall(r"Invariant (\w+) is violated", out)))) + " (model of a manager that does not charge a delivered notification of a cancelled request)")
         ok, out = mc(ctx, "MC_LimitsRM", "MC_LimitsRM_asis_close.cfg", timeout=600, expect_ok=False)
         ctx.extra["rm_model_asis_close_racing_with_request"] = ("no error" if ok else "manager can be left waiting in handleRequest for a caller that "
                                                                 "returned through closeC, Close() then never returns (the session only closes the "
                                                                 "manager after all torrents have stopped, so not reachable there; design observation)")
     # 2. the real manager
     ops = ctx.pick(10, 14)
-    plan = [("disc", ctx.pick(200, 1500)), ("pre", ctx.pick(8, 40)), ("during", ctx.pick(40, 300))]
+    plan = [("disc", ctx.pick(200, 1500)), ("pre", ctx.pick(8, 40)), ("during", ctx.pick(40, 300)), ("race", ctx.pick(50, 300))]
     alltraces = []
     for k, (mode, n) in enumerate(plan):
         out, crashes = run_driver(ctx, drv, "rm", mode, n, ops, k)
@@ -291,6 +324,10 @@ def check_rm(ctx, drv):
             ctx.oblig("C17.rm.balance", sum(1 for e in t if e["op"] == "call" and e["f"] == "Stats"))
             ctx.oblig("C17.rm.handshake", sum(1 for e in t if e["op"] == "call"))
             ctx.oblig("C17.rm.notify", sum(1 for e in t if e["op"] == "Notified"))
+            ctx.oblig("C17.rm.grant_vs_cancel", len(rm_cancelled_grants(t)))
+            if mode == "race":
+                ctx.extra["rm_race_cancelled_waiter_dropped"] = ctx.extra.get("rm_race_cancelled_waiter_dropped", 0) + len(
+                    {e["id"] for e in t if e["op"] == "Cancel"} - {e["id"] for e in t if e["op"] == "Notified"})
             ctx.oblig("C17.rm.cancel_before_request", sum(1 for i, e in enumerate(t) if e["op"] == "call" and e["f"] == "Request"
                                                           and any(c["op"] == "Cancel" and c["id"] == e["id"] for c in t[:i])))
         if traces and mode == "disc":
@@ -675,7 +712,7 @@ def check_sess(ctx, drv, launched=None):
 
 # ----------------------------------------------------------------------------------------------- registry
 
-REQUIRED = {"rm": ("C17.rm.limit", "C17.rm.balance", "C17.rm.handshake", "C17.rm.notify", "C17.rm.cancel_before_request"),
+REQUIRED = {"rm": ("C17.rm.limit", "C17.rm.balance", "C17.rm.handshake", "C17.rm.notify", "C17.rm.cancel_before_request", "C17.rm.grant_vs_cancel"),
             "cache": ("C17.cache.limit", "C17.cache.balance", "C17.cache.value", "C17.cache.parallel", "C17.cache.smallcfg"),
             "addr": ("C17.addr.limit", "C17.addr.balance", "C17.addr.atcapacity"),
             "sem": ("C17.sem.limit", "C17.sem.len"),
